@@ -142,7 +142,9 @@ func (la *ShareAvailability) SharesAvailable(ctx context.Context, header *header
 
 	smpls, errGetSamples := la.getter.GetSamples(samplingCtx, header, idxs)
 	if len(smpls) == 0 {
-		return share.ErrNotAvailable
+		// nothing was retrieved: every requested coordinate stays pending. The sampling result still
+		// has to be stored, otherwise a first attempt would draw new coordinates on retry.
+		smpls = make([]shwap.Sample, len(idxs))
 	}
 
 	var failedSamples []shwap.SampleCoords
